@@ -13,7 +13,8 @@ import H2V.Lemmas.ConnRecvPBase
     streams      (when `full`) window, available are `i32`; window ≤ available; for a stream that is not
                  closed: (available − window) + in_flight ≤ hiInit and available + in_flight ≤ hiInit;
                  for a stream that is in the id map and not closed:
-                 **available + in_flight = init_window_sz** (conservation)
+                 available + in_flight ≤ init_window_sz, and
+                 **available + in_flight = init_window_sz** (conservation) while its `RecvStream` exists
   The connection part holds for every history; the stream part for histories in which
   `apply_local_settings` did not fail (a failure is a connection error FLOW_CONTROL_ERROR).
 -/
@@ -35,6 +36,14 @@ def cW (s : Streams) : Int := s.recv.flow.windowSize.val
 def cA (s : Streams) : Int := s.recv.flow.available.val
 def cI (s : Streams) : Nat := s.recv.inFlightData
 
+/-- the stream-level books of a stream the protocol still knows (it is in the id map): closed, or
+    `available + in_flight ≤ init_window_sz`, with equality as long as the `RecvStream` handle exists
+    (`clear_recv_buffer` on a dropped `RecvStream` returns octets to the connection only) -/
+def Bud (x : Stream) (init : Nat) : Prop :=
+  x.state.isClosed = true ∨
+    (x.recvFlow.available.val + (x.inFlightRecvData : Int) ≤ (init : Int) ∧
+     (x.isRecv = true → x.recvFlow.available.val + (x.inFlightRecvData : Int) = (init : Int)))
+
 /-- the stream-level part, for one slab entry -/
 structure StreamOK (s : Streams) (g : Ghost) (x : Stream) : Prop where
   wI32 : inI32 x.recvFlow.windowSize.val = true
@@ -43,8 +52,7 @@ structure StreamOK (s : Streams) (g : Ghost) (x : Stream) : Prop where
   live : x.state.isClosed = true ∨
     (x.recvFlow.available.val - x.recvFlow.windowSize.val + (x.inFlightRecvData : Int) ≤ (g.hiInit : Int) ∧
      x.recvFlow.available.val + (x.inFlightRecvData : Int) ≤ (g.hiInit : Int))
-  bud : linked s x.key → x.state.isClosed = true ∨ x.isRecv = false ∨
-    x.recvFlow.available.val + (x.inFlightRecvData : Int) = (s.recv.initWindowSz : Int)
+  bud : linked s x.key → Bud x s.recv.initWindowSz
 
 /-- `d` is slack: octets already counted in the connection's `in_flight_data` that no stream
     accounts for yet (positive) or that a stream still accounts for although the connection has
@@ -124,13 +132,11 @@ theorem InvD.of_ext {full : Bool} {g : Ghost} {d : Int} {s s' : Streams} (h : In
           · rw [hs.key] at h1; exact h1
           · have := h.keys.lt x hx
             rw [hs.key] at h1; omega
-        rcases ok.bud hl' with hc | hr | hb
+        rcases ok.bud hl' with hc | hb
         · exact .inl (hs.closed hc)
-        · refine .inr (.inl ?_)
-          cases hr' : x'.isRecv with
-          | false => rfl
-          | true => rw [hs.recv hr'] at hr; cases hr
-        · exact .inr (.inr (by rw [hs.flow, hs.infl, e.init]; exact hb))
+        · refine .inr ?_
+          rw [hs.flow, hs.infl, e.init]
+          exact ⟨hb.1, fun hr => hb.2 (hs.recv hr)⟩
     · rcases hfr.flow with hfl | ⟨hfl, hc⟩
       · rw [newRecvFlow_eq hinit] at hfl
         have hI := h.initHi
@@ -140,7 +146,7 @@ theorem InvD.of_ext {full : Bool} {g : Ghost} {d : Int} {s s' : Streams} (h : In
         · rw [hfl]; apply inI32_of_range <;> simp <;> omega
         · rw [hfl]; exact Int.le_refl _
         · right; rw [hfl, hfr.infl]; simp; omega
-        · intro _; right; right; rw [hfl, hfr.infl, e.init]; simp
+        · intro _; right; rw [hfl, hfr.infl, e.init]; simp
       · rw [newRecvFlow_zero] at hfl
         refine ⟨?_, ?_, ?_, .inl hc, fun _ => .inl hc⟩
         · rw [hfl]; decide
